@@ -11,18 +11,22 @@ package curves
 // ---- registry ---------------------------------------------------------------------------------------
 //@ ghost var curveReg gset[string]
 //@ opaque func GetSpeedCurve
+//@   params (id)
 //@   returns (c, ok)
 //@   ensures id in curveReg ==> ok && c != nil
 //@   modifies nothing
 //@   trusted "registry lookup (concurrent map): a registered id yields its curve object"
 
 //@ func (*LinearSpeedCurve).SetValue
+//@   params (c, value)
 //@   ensures c.Value == value
 //@   modifies c.Value
 //@ func (*FunctionSpeedCurve).SetValue
+//@   params (c, value)
 //@   ensures c.Value == value
 //@   modifies c.Value
 //@ func (*PidSpeedCurve).SetValue
+//@   params (c, value)
 //@   ensures c.Value == value
 //@   modifies c.Value
 
@@ -30,6 +34,7 @@ package curves
 //@ pure linRamp(avg float64, minT float64, maxT float64) int = avg >= maxT ? 255 : (avg <= minT ? 0 : int(((avg - minT) / (maxT - minT)) * 255.0))
 
 //@ func (*LinearSpeedCurve).Evaluate
+//@   params (c)
 //@   props C06 C09
 //@   requires c.Config.Linear != nil && c.Config.Linear.Sensor in sensorReg && c.Config.Linear.Sensor in sensorFinite
 //@   requires c.Config.Linear.Steps != nil ==> util.stepsOK(c.Config.Linear.Steps)
@@ -46,6 +51,7 @@ package curves
 //@ pure byteVals(a []int) bool = forall j :: 0 <= j && j < len(a) ==> 0 <= a[j] && a[j] <= 255
 
 //@ func (*FunctionSpeedCurve).Evaluate
+//@   params (c)
 //@   props C06 C09
 //@   requires c.Config.Function != nil && fnTypeOK(c.Config.Function.Type)
 //@   requires len(c.Config.Function.Curves) >= 1 && len(c.Config.Function.Curves) <= 100000
@@ -96,6 +102,7 @@ package curves
 //@     invariant[C06.fold C07] byteVals(values) && 0 <= total && total <= 255 * (rangeindex + 1) && total == sumto(seqof(values), rangeindex + 1)
 
 //@ func (*PidSpeedCurve).Evaluate
+//@   params (c)
 //@   props C06 C09
 //@   requires c.Config.PID != nil && c.pidLoop != nil && c.Config.PID.Sensor in sensorReg
 //@   ensures[C06.range.finite C07] err == nil && !isnan(lastPidOut) ==> 0 <= value && value <= 255
@@ -106,12 +113,15 @@ package curves
 
 // ---- trivial getters (generated by `govc gengetters`, verified like every other contract) ------------------
 //@ func (*FunctionSpeedCurve).GetId
+//@   params (c)
 //@   ensures result == c.Config.ID
 //@   modifies nothing
 //@ func (*LinearSpeedCurve).GetId
+//@   params (c)
 //@   ensures result == c.Config.ID
 //@   modifies nothing
 //@ func (*PidSpeedCurve).GetId
+//@   params (c)
 //@   ensures result == c.Config.ID
 //@   modifies nothing
 
@@ -121,6 +131,7 @@ package curves
 //@ ghost var countSnap int
 
 //@ func lemmaLinearMonotone
+//@   params (c)
 //@   props C07
 //@   requires c != nil && c.Config.Linear != nil && c.Config.Linear.Sensor in sensorReg && c.Config.Linear.Sensor in sensorFinite
 //@   requires c.Config.Linear.Steps == nil && c.Config.Linear.Min < c.Config.Linear.Max && -1000000 <= c.Config.Linear.Min && c.Config.Linear.Max <= 1000000
@@ -130,6 +141,7 @@ package curves
 
 //@ pure membersUp(n int) bool = forall j int :: 0 <= j && j < n ==> valsSnap[j] <= memberVals[j]
 //@ func lemmaSumMonotone
+//@   params (n)
 //@   props C07
 //@   ensures membersUp(n) ==> sumto(valsSnap, n) <= sumto(memberVals, n)
 //@   modifies nothing
@@ -137,6 +149,7 @@ package curves
 //@     invariant 0 <= i && (i <= n || n < 0) && (membersUp(n) ==> sumto(valsSnap, i) <= sumto(memberVals, i))
 
 //@ func lemmaFunctionMonotone
+//@   params (c)
 //@   props C07
 //@   requires c != nil && c.Config.Function != nil && fnTypeOK(c.Config.Function.Type)
 //@   requires len(c.Config.Function.Curves) >= 1 && len(c.Config.Function.Curves) <= 100000
